@@ -14,7 +14,9 @@ fn run_case(spec: &spec::Spec, guess: &J, kind: &str, tag: Option<&str>, orig: O
         Ok(Ok(v)) => {
             // serialising what was read must not panic either; it is compared with the guess
             let back = std::panic::catch_unwind(|| v.to_json());
-            json!({"ok": enc_value(&v.0), "back": back.ok().map(|b| enc_json(&b))})
+            // the JSON TEXT written for what was read (the two zeros differ in text, not in value)
+            let back_text = back.as_ref().ok().map(|b| crate::util::canon(b));
+            json!({"ok": enc_value(&v.0), "back": back.ok().map(|b| enc_json(&b)), "backText": back_text, "guessText": crate::util::canon(guess)})
         }
     };
     let mut line = json!({"mode": "codec", "kind": kind, "spec": enc_spec(&spec.0), "json": enc_json(guess), "impl": imp});
